@@ -7,6 +7,10 @@ TECH = "bounded symbolic execution of the real code's go/ssa form, every branch/
 BASE = "cd /repo && go test -vet=off -count=1 -timeout 25m ./..."
 
 CLAIMED = {
+ "C06": dict(
+   text="Real Stream (client role) + CodecConn + FrameCodec + ByteBuffer over a scripted transport. Sessions: every conforming peer script of <= 3/4 frames forming <= 2 messages (text/binary, any legal fragmentation, pings/pongs anywhere, payload lengths from the class representatives {0,1,2,125,126} quick, + {65535,65536} thorough, symbolic payload bytes), every segmentation of the byte stream into <= 2/4 reads with split sizes 1..3/16 or 'the rest', through each of NextFrame, AsyncNextFrame, NextMessage, AsyncNextMessage: every frame/message is delivered once, in order, with the script's type, length and byte-identical payload (every byte compared), async callbacks exactly once. One-frame harness: payload length fully symbolic up to a symbolic max <= 2^31 (all three length encodings decided by the solver), <= 2/3 segments of symbolic sizes, payload compared at an arbitrary index.",
+   note="The opening handshake is not executed (C18 n/a): the stream is put in StateActive through its unexported init, as the in-package tests do. Server role, UTF-8 validation on, sessions longer than 3/4 frames are outside the claim. The inductive read step of C07 complements the session bound.",
+   ref="DESIGN.md §4 C06"),
  "C05": dict(
    text="Single-thread part of the property, decided for all schedules within the bounds: 1-3 top-level Posts, each handler may Post again (nesting <= 2, <= 2/3 nested posts, symbolic choice), Post from inside an I/O completion callback dispatched in the same batch, then 3/4 poll cycles with arbitrary batches. Asserted: no Lock by the holder of the poller mutex (self-deadlock), every handler runs exactly once and in posting order, Pending() and Posted() equal the posts not yet run (+ I/O in flight) between cycles, the eventfd counter is > 0 after every Post (a blocked loop is woken), PollOne reports n>0 when it ran a handler.",
    note="NOT covered (the engine executes one thread): interleavings of Post from other goroutines with the loop's dispatch/arm/disarm, and data-race freedom. The repaired code was additionally run under `go test -race` (io tests) but that is sampling, not part of this claim.",
